@@ -22,6 +22,12 @@ module N =
   | N0 -> Npos Coq_xH
   | Npos p -> Npos (Pos.succ p)
 
+  (** val succ_pos : coq_N -> positive **)
+
+  let succ_pos = function
+  | N0 -> Coq_xH
+  | Npos p -> Pos.succ p
+
   (** val add : coq_N -> coq_N -> coq_N **)
 
   let add n m =
@@ -110,4 +116,46 @@ module N =
     | Npos na -> (match b with
                   | N0 -> (N0, a)
                   | Npos _ -> pos_div_eucl na b)
+
+  (** val coq_lor : coq_N -> coq_N -> coq_N **)
+
+  let coq_lor n m =
+    match n with
+    | N0 -> m
+    | Npos p -> (match m with
+                 | N0 -> n
+                 | Npos q -> Npos (Pos.coq_lor p q))
+
+  (** val coq_land : coq_N -> coq_N -> coq_N **)
+
+  let coq_land n m =
+    match n with
+    | N0 -> N0
+    | Npos p -> (match m with
+                 | N0 -> N0
+                 | Npos q -> Pos.coq_land p q)
+
+  (** val ldiff : coq_N -> coq_N -> coq_N **)
+
+  let ldiff n m =
+    match n with
+    | N0 -> N0
+    | Npos p -> (match m with
+                 | N0 -> n
+                 | Npos q -> Pos.ldiff p q)
+
+  (** val coq_lxor : coq_N -> coq_N -> coq_N **)
+
+  let coq_lxor n m =
+    match n with
+    | N0 -> m
+    | Npos p -> (match m with
+                 | N0 -> n
+                 | Npos q -> Pos.coq_lxor p q)
+
+  (** val to_nat : coq_N -> nat **)
+
+  let to_nat = function
+  | N0 -> O
+  | Npos p -> Pos.to_nat p
  end
